@@ -277,6 +277,10 @@ func (c *Ctx) CheckRapid(name string, checks int, gen func(t *rapid.T) *Case, ch
 			c.Eval(1)
 			err := safely(func() error { return check(cs) })
 			if err != nil {
+				if strings.HasPrefix(err.Error(), "HARNESS") {
+					fmt.Printf("HARNESS-ERROR %s: %v\n", name, err)
+					rt.Fatalf("%v", err)
+				}
 				last, lastErr = cs, err
 				rt.Fatalf("%v", err)
 			}
@@ -452,6 +456,10 @@ func runRegress(ctx *Ctx, e *Engine) {
 		ctx.Eval(1)
 		ctx.Label("regression cases replayed")
 		if err := safely(func() error { return e.Replay(ctx, &cs) }); err != nil {
+			if strings.HasPrefix(err.Error(), "HARNESS") {
+				fmt.Printf("HARNESS-ERROR regress %s: %v\n", f, err)
+				continue
+			}
 			fmt.Printf("VIOLATION property=%s replay=%s\n  detail: %s\n", ctx.Prop, f, trunc(err.Error(), 1500))
 			ctx.mu.Lock()
 			ctx.violations = append(ctx.violations, f)
